@@ -376,6 +376,11 @@ def _contains(I, container: Any, item: Any, st, item_expr) -> list:
 
 # ------------------------------------------------------------------ operators
 def binop(I, op, l: Any, r: Any, st, node=None) -> list:
+    hook = I.probes.get("binop")
+    if hook is not None and (isinstance(l, (Opaque, Term)) or isinstance(r, (Opaque, Term))):
+        v = hook(I, op, l, r, st)
+        if v is not None:
+            return [(v, st)]
     if isinstance(op, ast.Add):
         if isinstance(l, (str, SeqStr, CharSet, Text)) and isinstance(r, (str, SeqStr, CharSet, Text)):
             return [(concat_str(I, [l, r], st), st)]
@@ -995,6 +1000,19 @@ def str_method_abstract(I, recv, name, args, st) -> list:
     if name in ("strip", "lstrip", "rstrip") and not args:
         if all(not any(c.isspace() for c in _chars_of(p)) for p in parts):
             return [(recv, st)]
+    if name == "replace" and len(args) == 2 and isinstance(args[0], str) and len(args[0]) == 1 and isinstance(args[1], str):
+        a, b = args
+        out: list = []
+        for p in parts:
+            cs = _chars_of(p)
+            if cs == {a}:
+                out.extend(b)
+            elif a in cs:
+                st.note("replace on uncertain character position")
+                return [(Unknown("replace"), st)]
+            else:
+                out.append(p)
+        return [("".join(out) if all(isinstance(x, str) for x in out) else SeqStr(tuple(out)), st)]
     st.note(f"str.{name} on abstract string not modelled")
     return [(Unknown(f"str.{name}"), st)]
 
